@@ -12,7 +12,7 @@ pub fn info() -> PropInfo {
     PropInfo {
         id: "C09",
         level: "exploration",
-        rule: "proptest: library-issued credentials x exp in {absent, null, string, negative, now-10y..now-120s (int/float)} (must reject) or {now+1h..2100} (must accept) x nbf in {absent, past} (accept) or {now+120s..now+10y} (reject), iat untouched / equal to nbf / equal to exp / absent / far future (no effect on the expectation), nbf kept visible (NoSD / Custom not listing it) x format x key binding x selection; instants are computed from the wall clock at execution, never within 120 s of a boundary; oracle: accept/reject table, accepted => claims == view. Every case is non-trivial (each has a defined expectation). Distinct: hash of the case JSON.",
+        rule: "proptest: library-issued credentials (one in five: signed by the harness as another issuer implementation would, nothing selectively disclosable; with key binding one in four: the KB-JWT replaced by a harness-made one whose own iat is years old, must-reject direction only) x exp in {absent, null, string, negative, now-10y..now-120s (int/float)} (must reject) or {now+1h..2100} (must accept) x nbf in {absent, past} (accept) or {now+120s..now+10y} (reject), iat untouched / equal to nbf / equal to exp / absent / far future (no effect on the expectation), nbf kept visible (NoSD / Custom not listing it) x format x key binding x selection; instants are computed from the wall clock at execution, never within 120 s of a boundary; oracle: accept/reject table, accepted => claims == view. Every case is non-trivial (each has a defined expectation). Distinct: hash of the case JSON.",
         assumptions: &["|harness clock - verifier clock| < 60 s within one case (same process)", "void when issuance / presentation fails"],
         needs_mock: false,
         rounds: 4,
@@ -77,7 +77,7 @@ pub fn strategy() -> BoxedStrategy<Case> {
                 6 => 5,
                 _ => 0,
             };
-            C09Case { issue, exp, nbf, selection, kb, iat_mode }
+            C09Case { issue, exp, nbf, selection, kb, iat_mode, foreign_issuer: ch.get(2).map(|c| c % 5 == 0).unwrap_or(false), backdated_kb: ch.get(3).map(|c| c % 4 == 0).unwrap_or(false) }
         })
         .boxed()
 }
